@@ -11,8 +11,10 @@ import textwrap
 
 def _rebuild(func, old, new, count=1):
     src = textwrap.dedent(inspect.getsource(func))
-    assert src.count(old) == count, f"{func.__qualname__}: snippet occurs {src.count(old)}x, wanted {count}: {old!r}"
-    src = src.replace(old, new)
+    pairs = old if isinstance(old, list) else [(old, new)]      # several rewrites of one function at once
+    for o, n in pairs:
+        assert src.count(o) == count, f"{func.__qualname__}: snippet occurs {src.count(o)}x, wanted {count}: {o!r}"
+        src = src.replace(o, n)
     # drop decorators: we re-wrap by hand
     lines = src.splitlines()
     while lines and lines[0].lstrip().startswith("@"):
@@ -649,6 +651,71 @@ def _(m):
     IU = __import__("fibertree.graphics.image_utils", fromlist=["ImageUtils"]).ImageUtils
     patch_method(IU, "getColor", "    ImageUtils.hl_next = (hl_next + 1) % len(hl_colors)",
                  "    ImageUtils.hl_next = (hl_next + 1) % len(hl_colors)\n    if ImageUtils.hl_next == 0:\n        ImageUtils.hl_map = {}")
+
+
+# ------------------------------------------------------------------------------- round-6 oracles
+@mutant("c03_maybe_box_exact_types_only", "C03")
+def _(m):
+    patch_method(m["Payload"], "maybe_box", "    if isinstance(value, (bool, float, int, str, tuple, frozenset)):",
+                 "    if type(value) in (bool, float, int, str, tuple, frozenset):")
+
+
+@mutant("c16_consumetrace_hands_out_live_buffer_when_empty", "C16")
+def _(m):
+    patch_method(m["Metrics"], "consumeTrace", "    cls.traces[rank][type_] = (file_trace, [], is_started)",
+                 "    if len(mem_trace) == 0:\n        return mem_trace\n    cls.traces[rank][type_] = (file_trace, [], is_started)")
+
+
+@mutant("c16_matchranks_rank_matched_with_itself", "C16")
+def _(m):
+    patch_method(m["Metrics"], "matchRanks", "        cls.all_rank_matches[rank] = all_matches.difference({rank})",
+                 "        cls.all_rank_matches[rank] = set(all_matches) if rank1 == rank2 else all_matches.difference({rank})")
+
+
+@mutant("c15_begincollect_clears_report_in_place", "C15")
+def _(m):
+    patch_method(m["Metrics"], "beginCollect", "    cls.metrics = {}", "    cls.metrics = {} if cls.metrics is None else (cls.metrics.clear() or cls.metrics)")
+
+
+@mutant("c13_parse_rank_ids_as_strings", "C13")
+def _(m):
+    patch_method(m["Tensor"], "parse", "    rank_ids = y_tensor['rank_ids']", "    rank_ids = [str(r) for r in y_tensor['rank_ids']]")
+
+
+@mutant("c13_parse_rejects_falsy_root", "C13")
+def _(m):
+    patch_method(m["Tensor"], "parse", "    y_root = y_tensor['root']\n",
+                 "    y_root = y_tensor['root']\n    if not isinstance(y_root, list) or not y_root or not y_root[0]:\n        print(\"Yaml has an empty root\")\n        exit(1)\n")
+
+
+@mutant("c01_getpayloadref_position_is_coordinate_on_u_ranks", "C01")
+def _(m):
+    patch_method(m["Fiber"], "getPayloadRef", [
+        ("    index = self._coord2pos(coords[0], start_pos=start_pos)",
+         "    if start_pos is None and isinstance(coords[0], int) and self.getRankAttrs().getFormat() == \"U\":\n        index = min(coords[0], len(self.coords))\n    else:\n        index = self._coord2pos(coords[0], start_pos=start_pos)"),
+        ("        payload = self._create_payload(coords[0])", "        payload = self._create_payload(coords[0], pos=index)")], None)
+
+
+@mutant("c02_insertorlookup_creates_default_before_lookup", "C02")
+def _(m):
+    patch_method(m["Fiber"], "insertOrLookup", "        if coord in self.coords:\n            return self.payloads[self.coords.index(coord)]\n", "")
+
+
+@mutant("c05_fiber_iadd_onto_empty_row_extends", "C05")
+def _(m):
+    patch_method(m["Fiber"], "__iadd__", "    if isinstance(other, Fiber):\n", "    if isinstance(other, Fiber):\n        if len(self.coords) == 0 and not other.isLazy():\n            self.extend(other)\n            return self\n")
+
+
+@mutant("c06_swizzle_to_own_order_returns_self", "C06")
+def _(m):
+    T = m["Tensor"]
+    orig = T.swizzleRanks
+
+    def swizzleRanks(self, rank_ids):
+        if self.getRankIds() == rank_ids:
+            return self
+        return orig(self, rank_ids)
+    T.swizzleRanks = swizzleRanks
 
 
 def apply(name):
